@@ -63,7 +63,7 @@ theorem step_pt {cfg : Cfg} {m : M} {l : L} (h : PT m) (hl : PlainText l) :
     have e10 := handleSubmoduleLog_not_mine cfg (stepInit m l) l hl.no.submodule
     have e11 : handleSubmoduleShort cfg (stepInit m l) l = .ok (false, stepInit m l) := by
       unfold handleSubmoduleShort submoduleShortTest
-      simp [h0.st, isHunkHeader]
+      simp [h0.st, isHunkHeader, pairableHunkHeader]
     have e12 := handleMergeConflict_not_mine cfg (stepInit m l) l hnc hnm
     have e13 : handleHunkLine cfg (stepInit m l) l = .ok (false, stepInit m l) := by
       unfold handleHunkLine; simp [hnh]
